@@ -34,6 +34,17 @@ theorem evAt_take (log : Log) (k i : Nat) (h : i < k) : evAt (log.take k) i = ev
 theorem sendAt_take (log : Log) (k i : Nat) (h : i < k) : sendAt (log.take k) i = sendAt log i := by
   simp [sendAt, evAt_take log k i h]
 
+/-- replies of fixed length only: `getFullReply` never asks for more (no `more` event in the log) -/
+def NoMore (log : Log) : Prop := ∀ m x n, evAt log m ≠ some (.more x n)
+
+theorem noMore_restrict {log : Log} {e : TEv} (h : NoMore (log ++ [e])) : NoMore log ∧ ∀ x n, e.ev ≠ .more x n := by
+  refine ⟨fun m x n hm => ?_, fun x n he => ?_⟩
+  · have hlt : m < log.length := by
+      false_or_by_contra; rename_i hn
+      rw [evAt_none log m (by omega)] at hm; simp at hm
+    exact h m x n (by rw [evAt_append_lt log e m hlt]; exact hm)
+  · exact h log.length x n (by rw [evAt_append_eq, he])
+
 /-- no return of `c` after position i -/
 def NoRetAfter (log : Log) (c i : Nat) : Prop := ∀ m, i < m → m < log.length → isRetOf c (evAt log m) = false
 
@@ -45,13 +56,14 @@ structure Inv (log : Log) (s : State) : Prop where
   tk : ∀ c, todoOk (s.callers c)
   so : ∀ c, sentOk (s.callers c)
   ni : s.cfg.ident = [] → ∀ c, identFree (s.callers c)
+  nx : NoMore log → ∀ c, (s.callers c).pc ≠ .readX
   sb : ∀ c i, sendAt log i = some c → NoRetAfter log c i → 0 < (s.callers c).sent
   b : ∀ c i, sendAt log i = some c → NoRetAfter log c i → (s.callers c).held = 0 → (s.callers c).pc = .done
   cc : ∀ c i j c', sendAt log i = some c → NoRetAfter log c i → 0 < (s.callers c).held → i < j →
         sendAt log j = some c' → c' = c
 
 theorem inv_init (cfg : Cfg) (cbs : List Nat) : Inv [] { cfg := cfg, cbsReg := cbs } := by
-  refine ⟨?_, ?_, ?_, ?_, ?_, ?_, ?_, ?_, ?_, ?_⟩
+  refine ⟨?_, ?_, ?_, ?_, ?_, ?_, ?_, ?_, ?_, ?_, ?_⟩
   · intro c h; simp at h
   · intro c h; simp at h
   · intro _; rfl
@@ -59,6 +71,7 @@ theorem inv_init (cfg : Cfg) (cbs : List Nat) : Inv [] { cfg := cfg, cbsReg := c
   · intro c; simp [todoOk]
   · intro c; simp [sentOk, multiPc, prePc]
   · intro _ c; exact ⟨rfl, rfl⟩
+  · intro _ c; simp
   · intro c i h; simp [sendAt, evAt] at h
   · intro c i h; simp [sendAt, evAt] at h
   · intro c i j c' h; simp [sendAt, evAt] at h
@@ -72,7 +85,7 @@ theorem noRetAfter_restrict {log : Log} {e : TEv} {c i : Nat} (h : NoRetAfter (l
 theorem inv_env {log : Log} {s s' : State} (e : TEv) (hi : Inv log s)
     (hc : s'.callers = s.callers) (ho : s'.owner = s.owner) (hd : s'.depth = s.depth) (hcf : s'.cfg = s.cfg)
     (hs : sendAt (log ++ [e]) log.length = none) : Inv (log ++ [e]) s' := by
-  refine ⟨?_, ?_, ?_, ?_, ?_, ?_, ?_, ?_, ?_, ?_⟩
+  refine ⟨?_, ?_, ?_, ?_, ?_, ?_, ?_, ?_, ?_, ?_, ?_⟩
   · intro c h; rw [hc] at h; rw [ho]; exact hi.li1 c h
   · intro c h; rw [ho] at h; rw [hd, hc]; exact hi.li2 c h
   · intro h; rw [ho] at h; rw [hd]; exact hi.li3 h
@@ -80,6 +93,7 @@ theorem inv_env {log : Log} {s s' : State} (e : TEv) (hi : Inv log s)
   · intro c; rw [hc]; exact hi.tk c
   · intro c; rw [hc]; exact hi.so c
   · intro hid c; rw [hc]; rw [hcf] at hid; exact hi.ni hid c
+  · intro hnm c; rw [hc]; exact hi.nx (noMore_restrict hnm).1 c
   · intro c i h1 h2
     have hlt : i < log.length := by
       have := sendAt_lt_length _ _ _ h1
@@ -145,7 +159,7 @@ theorem inv_caller {log : Log} {s s' : State} (e : TEv) (c0 : Nat) (hw : e.ev.wh
   have tk' := step_todoOk s s' e.t c0 e.ev h (hi.tk c0)
   have so' := step_sentOk s s' e.t c0 e.ev h (hi.so c0) (hi.tk c0)
   have hoth : ∀ x, x ≠ c0 → s'.callers x = s.callers x := step_others s s' e.t c0 e.ev h
-  refine ⟨?_, ?_, ?_, ?_, ?_, ?_, ?_, ?_, ?_, ?_⟩
+  refine ⟨?_, ?_, ?_, ?_, ?_, ?_, ?_, ?_, ?_, ?_, ?_⟩
   · -- li1
     intro c hc
     cases hlock with
@@ -220,6 +234,15 @@ theorem inv_caller {log : Log} {s s' : State} (e : TEv) (c0 : Nat) (hw : e.ev.wh
     by_cases hcc : c = c0
     · subst hcc; exact step_identFree s s' e.t c e.ev h hid (hi.ni hid c)
     · rw [hoth c hcc]; exact hi.ni hid c
+  · intro hnm c
+    obtain ⟨hnm0, hne⟩ := noMore_restrict hnm
+    by_cases hcc : c = c0
+    · subst hcc
+      intro hp
+      rcases step_enter_readX s s' e.t c e.ev h hp with hold | ⟨x, n, hx⟩
+      · exact hi.nx hnm0 c hold
+      · exact hne x n hx
+    · rw [hoth c hcc]; exact hi.nx hnm0 c
   · -- sb
     intro c i h1 h2
     have hile := sendAt_lt_length _ _ _ h1
@@ -318,7 +341,7 @@ theorem inv_caller {log : Log} {s s' : State} (e : TEv) (c0 : Nat) (hw : e.ev.wh
 
 
 theorem inv_clock {log : Log} {s : State} (t : Nat) (hi : Inv log s) : Inv log { s with clock := t } :=
-  ⟨hi.li1, hi.li2, hi.li3, hi.hk, hi.tk, hi.so, hi.ni, hi.sb, hi.b, hi.cc⟩
+  ⟨hi.li1, hi.li2, hi.li3, hi.hk, hi.tk, hi.so, hi.ni, hi.nx, hi.sb, hi.b, hi.cc⟩
 
 theorem sendAt_last_not_send {log : Log} {e : TEv} (h : ∀ c a b d, e.ev ≠ .send c a b d) :
     sendAt (log ++ [e]) log.length = none := by
